@@ -182,6 +182,58 @@ pub fn run(tier: Tier) -> i32 {
         }
     }
 
+    // ---------------------------------------------------------------- windows above 1 MiB, and literal-context settings with large tables:
+    // the limit is about the window actually needed, nothing else (not growth steps, not probability tables)
+    {
+        let name = "public+stream/large-windows-and-wide-literal-contexts";
+        if ctx.may_start(name) {
+            let t0 = Instant::now();
+            let mut items: Vec<(u32, u32, u32, u32, usize, i64)> = Vec::new();
+            for (dict, total) in [(1u32 << 23, 1_300_000usize), (0x18_0000, 0x18_0000 + 4000), (1 << 21, (1 << 21) - 1)] {
+                for dm in [-1i64, 0, 1, 70_000] {
+                    items.push((3, 0, 2, dict, total, dm));
+                }
+            }
+            for (lc, lp, pb) in [(8u32, 0u32, 2u32), (3, 2, 2), (8, 4, 4), (0, 4, 0), (4, 1, 0)] {
+                for (dict, total) in [(4096u32, 300usize), (4096, 4096), (4096, 5000), (65536, 9000)] {
+                    for dm in [-1i64, 0, 1] {
+                        items.push((lc, lp, pb, dict, total, dm));
+                    }
+                }
+            }
+            par_for(items.len() as u64, |i| {
+                let (lc, lp, pb, dict, total, dm) = items[i as usize];
+                let prog = grow(total);
+                let e = enc::encode(lc, lp, pb, dict as u64, &prog);
+                assert!(e.bad.is_none() && e.expect.len() == total);
+                let need = total.min(dict as usize) as i64;
+                let m = (need + dm).max(0) as u64;
+                let file = enc::lzma_file(lc, lp, pb, dict, Some(total as u64), &e.payload);
+                let opts = Opts { memlimit: Some(m), ..Opts::default() };
+                for stream in [false, true] {
+                    let case = if stream {
+                        let mut ops: Vec<SOp> = file.chunks(4099).map(|c| SOp::WriteAll(Hex(c.to_vec()))).collect();
+                        ops.push(SOp::Finish);
+                        Case::Stream { opts, sk: Sk::default(), ops }
+                    } else {
+                        Case::Dec { fmt: Fmt::Lzma, opts, input: Hex(file.clone()), rd: Rd::default(), sk: Sk::default() }
+                    };
+                    let o = run_case(&case);
+                    ctx.eval(1);
+                    ctx.nontriv(1);
+                    ctx.traces.fetch_add(1, Ordering::Relaxed);
+                    let failed = if o.ops.is_empty() { o.v.is_err() } else { o.ops.iter().any(|r| r.v.is_err()) };
+                    let all_ok = if o.ops.is_empty() { o.v.is_ok() } else { o.ops.iter().all(|r| r.v.is_ok()) };
+                    let ok = if need as u64 <= m { all_ok && o.out.0 == e.expect } else { failed && e.expect.starts_with(&o.out.0) };
+                    if !ok {
+                        ctx.violation(&case, &format!("lc={} lp={} pb={}, {} output bytes, dict {}, limit {}: needed window {} => {}", lc, lp, pb, total, dict, m, need, if need as u64 <= m { "Ok, identical to unlimited" } else { "Err, delivered bytes a prefix" }), &o, None);
+                        return;
+                    }
+                }
+            });
+            ctx.scope_done(name, items.len() as u64, t0, "windows of 1.3 - 2 MiB with limits need-1 / need / need+1 / need+70000; lc+lp up to 12");
+        }
+    }
     // ---------------------------------------------------------------- header dictionary field below 4096: the window in effect is 4096 bytes
     {
         let name = "public/header-dict-below-4096";
